@@ -1,6 +1,6 @@
 use parking_lot::{Condvar, Mutex};
 
-use std::sync::atomic::{AtomicBool, Ordering};
+use std::sync::atomic::{fence, AtomicBool, Ordering};
 use std::sync::Arc;
 use std::time::Duration;
 
@@ -160,6 +160,10 @@ impl SyncBlocker {
     #[inline]
     pub fn set_release(&self) {
         self.release.store(true, Ordering::Release);
+        // the caller checks `unparked` next, while the waker stores `unparked`
+        // and then takes `release`: one of the two has to see the other's store,
+        // which needs a full fence between the store and the load on both sides
+        fence(Ordering::SeqCst);
     }
 
     // take the release Flag
@@ -179,5 +183,7 @@ impl SyncBlocker {
         #[cfg(may_verif)]
         may_queue::verif::point(may_queue::verif::site::SYNCBLOCKER_UNPARK_MID, self as *const _ as usize);
         self.unparked.store(true, Ordering::Release);
+        // see set_release
+        fence(Ordering::SeqCst);
     }
 }
